@@ -125,6 +125,10 @@ def _depth(graph):
 
 def check(case, rec):
     from nptdms import TdmsFile
+    if case.get('daqmx'):
+        return check_daqmx_graph(case, rec)
+    if 'sensor' in case:
+        return check_sensor(case, rec)
     fs, graph = build_file(case)
     t = case['type']
     raw = np.frombuffer(b''.join(b''.join(c) for c in case['segs']), dtype=np_dtype(t))
@@ -204,6 +208,110 @@ def check(case, rec):
         tf_l.close()
 
 
+@st.composite
+def daqmx_graph_cases(draw):
+    """a raw DAQmx channel with k scalers; NI_Scale[k..] are structural scales whose inputs are scaler ids or lower scales"""
+    from vf.daqmx import daqmx_file
+    fs = draw(daqmx_file(max_segments=2, max_channels=1, max_buffers=2, max_len=4, max_chunks=2))
+    ent0 = fs['segments'][0]['entries'][0]
+    k = len(ent0['scalers'])
+    extra = draw(SC.scale_graph('f64', max_scales=3, types=('Linear', 'Polynomial', 'Table', 'Add', 'Subtract')))
+    # re-wire: a reference to "raw" becomes a reference to a drawn scaler id, lower scale indexes shift by k
+    def rw(ref):
+        return draw(st.integers(0, k - 1)) if ref is None else ref + k
+    graph = []
+    for sc in extra:
+        sc = dict(sc)
+        if sc['type'] in ('Add', 'Subtract'):
+            sc['left'], sc['right'] = rw(sc['left']), rw(sc['right'])
+        else:
+            sc['src'] = rw(sc['src'])
+            sc['explicit_src'] = True
+        graph.append(sc)
+    return {'daqmx': True, 'fs': fs, 'k': k, 'graph': graph}
+
+
+def check_daqmx_graph(case, rec):
+    from nptdms import TdmsFile
+    from vf.daqmx import expected_daqmx
+    from vf.model import split_path
+    fs = case['fs']
+    k = case['k']
+    graph = case['graph']
+    # properties: the first k scales have no Scale_Type (they are the raw DAQmx scalers), the rest follow
+    props = [['NI_Number_Of_Scales', 'u32', k + len(graph)]]
+    full = [None] * k + graph
+    for (name, pt, val) in SC.graph_props(full[k:], False):
+        # shift the scale index in the property names by k
+        idx = int(name[len('NI_Scale['):name.index(']')])
+        props.append(['NI_Scale[%d]%s' % (idx + k, name[name.index(']') + 1:]), pt, val])
+    segs = []
+    path = fs['segments'][0]['entries'][0]['path']
+    for si, seg in enumerate(fs['segments']):
+        seg = dict(seg)
+        ents = []
+        for e in seg['entries']:
+            e = dict(e)
+            if e['path'] == path and e.get('hdr') == 'daqmx':
+                e['chan_type'] = 'raw'
+                e['props'] = props if si == 0 else []
+            ents.append(e)
+        seg['entries'] = ents
+        segs.append(seg)
+    fs2 = {'segments': segs}
+    exd = expected_daqmx(fs2)
+    if path not in exd:
+        return
+    data, _i, _l = encode_file(fs2)
+    rec.nontrivial(True)
+    rec.label('daqmx_scaler_inputs', *('scale=' + s['type'] for s in graph))
+    scal = {sid: np.frombuffer(vals, dtype=np_dtype(t)) for sid, (t, vals) in exd[path]['scalers'].items()}
+
+    # evaluate with the independent interpreter: scaler ids act as already-computed nodes
+    def ev(ref):
+        if ref < k:
+            r = scal[ref]
+            return r, np.abs(r.astype(np.float64))
+        sub = graph[ref - k]
+        t = sub['type']
+        if t in ('Add', 'Subtract'):
+            a, ma = ev(sub['left'])
+            b, mb = ev(sub['right'])
+            return ((a + b) if t == 'Add' else (b - a)), ma + mb
+        x, mag = ev(sub['src'])
+        one = dict(sub, src=None)
+        v, m = SC.eval_graph([one], x)
+        return v, m + mag * 0
+    want, mag = ev(k + len(graph) - 1)
+    g, c = split_path(path)
+    for mode in ('eager', 'lazy'):
+        opener = TdmsFile.read if mode == 'eager' else TdmsFile.open
+        ok, tf = rec.guard('daqmx_graph:' + mode, lambda: opener(io.BytesIO(data)))
+        if not ok:
+            continue
+        try:
+            ok, got = rec.guard('daqmx_graph:' + mode, lambda: np.asarray(tf[g][c][:]))
+            if not ok:
+                continue
+            w = np.asarray(want, dtype=np.float64)
+            if len(got) != len(w):
+                rec.violation('daqmx_graph:length', '%d scaled values, expected %d' % (len(got), len(w)))
+                continue
+            gf = got.astype(np.float64)
+            with np.errstate(all='ignore'):
+                tol = 64 * np.finfo(np.float64).eps * np.maximum(np.asarray(mag, dtype=np.float64), np.abs(w)) + 1e-300
+                # random scaler bytes include inf / NaN / huge values: equal non-finite results agree, and where the
+                # intermediate magnitude is not finite the formula has no finite conditioning to judge by
+                same = (gf == w) | (np.isnan(gf) & np.isnan(w)) | (np.abs(gf - w) <= tol) | ~np.isfinite(tol)
+            bad = np.nonzero(~same)[0]
+            if len(bad):
+                i = int(bad[0])
+                rec.violation('daqmx_graph:value', '%s element %d: scaled %r, evaluation over the raw scalers %r; graph %r' % (
+                    mode, i, got[i], w[i], graph))
+        finally:
+            tf.close()
+
+
 def sensor_cases():
     from props.C14 import scale_variants
     sensors = [(n, g) for (n, g) in scale_variants() if g and g[0]['type'] in ('RTD', 'Thermistor', 'Strain', 'Thermocouple')]
@@ -262,9 +370,11 @@ def check_sensor(case, rec):
 def jobs(tier):
     if tier == 'quick':
         return [Job('scale_graphs', 'hyp', lambda: cases(), n=4000),
+                Job('daqmx_scaler_inputs', 'hyp', daqmx_graph_cases, n=800, check=check_daqmx_graph),
                 Job('sensor_scalings_leave_raw_data_alone', 'enum', sensor_cases(), exhaustive=True, check=check_sensor,
                     note='12 sensor scalings x 3 raw types x 2 lengths: repeatable, lazy==eager, raw untouched')]
     return [Job('scale_graphs', 'hyp', lambda: cases(), n=120000),
             Job('with_noop_scales', 'hyp', lambda: cases(noop=True), n=30000),
+            Job('daqmx_scaler_inputs', 'hyp', daqmx_graph_cases, n=30000, check=check_daqmx_graph),
             Job('sensor_scalings_leave_raw_data_alone', 'enum', sensor_cases(), exhaustive=True, check=check_sensor,
                 note='12 sensor scalings x 3 raw types x 2 lengths: repeatable, lazy==eager, raw untouched')]
